@@ -214,7 +214,9 @@ class LoaderGroup(Generic[_K, _L]):
                 loader.normalize_mask(mask),
                 **align_kwargs,
             )
-            _max_shifts_px = np.asarray(max_shifts) / loader.scale
+            _max_shifts_px = (
+                np.asarray(_misc.normalize_max_shifts(max_shifts)) / loader.scale
+            )
             tasks = loader.construct_mapping_tasks(
                 model.align,
                 max_shifts=_max_shifts_px,
@@ -331,7 +333,9 @@ class LoaderGroup(Generic[_K, _L]):
                 mask=loader.normalize_mask(mask),
                 **align_kwargs,
             )
-            _max_shifts_px = np.asarray(max_shifts) / loader.scale
+            _max_shifts_px = (
+                np.asarray(_misc.normalize_max_shifts(max_shifts)) / loader.scale
+            )
             tasks = loader.construct_mapping_tasks(
                 model.align,
                 max_shifts=_max_shifts_px,
